@@ -43,6 +43,11 @@ def make_program(name, orc_holder):
             P.influence = lambda G, node, st: set(G.neighbors(node))
         if name == "SIR_iter":
             P.influence = lambda G, node, st: iter(list(G.neighbors(node)))
+    elif name == "SIR_int0":
+        # integer status labels, one of them falsy: 1 = susceptible, 2 = infected, 0 = recovered
+        P.statuses = [1, 2, 0]
+        P.rate = lambda G, node, st: TAU * nI(G, node, st, 2) if st[node] == 1 else (GAMMA if st[node] == 2 else 0.0)
+        P.choose = lambda G, node, st: 2 if st[node] == 1 else 0
     elif name == "SIS":
         P.statuses = ["S", "I"]
         P.rate = lambda G, node, st: TAU * nI(G, node, st) if st[node] == "S" else GAMMA
@@ -312,7 +317,7 @@ def run_spec(spec, props=("C15",)):
     return A.result(props)
 
 
-PROGRAMS = ["SIR", "SIR_set", "SIR_iter", "SIS", "thr1", "thr2", "global", "twoway", "lazy"]
+PROGRAMS = ["SIR", "SIR_set", "SIR_iter", "SIR_int0", "SIS", "thr1", "thr2", "global", "twoway", "lazy"]
 
 
 def specs(tier):
@@ -321,11 +326,11 @@ def specs(tier):
     gs = [(n, es) for n, es in gr.small_graphs(3)]
     gs += [gr.NAMED[k] for k in (("C4", "S4", "P4", "K4") if thorough else ("C4", "S4"))]
     for pname in PROGRAMS:
-        alphabet = {"SIR": "SIR", "SIR_set": "SIR", "SIR_iter": "SIR", "SIS": "SI", "thr1": "SI", "thr2": "SI",
+        alphabet = {"SIR": "SIR", "SIR_set": "SIR", "SIR_iter": "SIR", "SIR_int0": [1, 2, 0], "SIS": "SI", "thr1": "SI", "thr2": "SI",
                     "global": "SIR", "twoway": "SIR", "lazy": "AB"}[pname]
-        term = pname in ("SIR", "SIR_set", "SIR_iter", "global")
+        term = pname in ("SIR", "SIR_set", "SIR_iter", "SIR_int0", "global")
         for (n, es) in gs:
-            if pname in ("SIR_set", "SIR_iter") and n == 4:
+            if pname in ("SIR_set", "SIR_iter", "SIR_int0") and n == 4:
                 continue
             for ic in itertools.product(alphabet, repeat=n):
                 if n == 4 and not thorough and sum(1 for x in ic if x != alphabet[0]) > 2:
